@@ -214,6 +214,16 @@ def run_case(case):
                 dd = hist.obs_equal(o2, o1)
                 if dd:
                     vios.append(dict(sig="loaded-accessor-update-differs:" + "+".join(dd), tags=tags, detail="after set_value/set_initial through accessor symbols: %s" % dd))
+                # the same updates on a second loaded copy BEFORE its first transcription
+                import rockit
+                ocp3 = rockit.Ocp.load(os.path.join(tmp, "ocp.rockit"))
+                ocp3.set_value(ocp3.parameters[""][0], 1.3)
+                ocp3.set_initial(ocp3.controls[0], 0.21)
+                r3 = P.Real(); r3.ocp = ocp3
+                o3 = hist.observe(r3)
+                dd = hist.obs_equal(o3, o1) if "error" not in o3 else ["error:%s" % o3["error"][:80]]
+                if dd:
+                    vios.append(dict(sig="loaded-fresh-accessor-update-differs:" + "+".join(d_.split(":")[0] for d_ in dd), tags=tags, detail="set_value/set_initial through accessor symbols of a freshly loaded (never transcribed) OCP: %s" % dd))
             except Exception as e:
                 vios.append(dict(sig="exception:accessor-update", tags=tags, detail="%s: %s" % (type(e).__name__, str(e)[:200])))
         oc = explore.sha([obs_loaded if "error" not in obs_loaded else None, [v["sig"] for v in vios]])
@@ -225,6 +235,6 @@ def run_case(case):
 
 def describe(tier):
     return dict(
-        rule="program alphabet over %d feature dimensions (methods, integrators, grids incl. localized/free/density, horizon kinds, state shapes, DAE, global/per-interval parameters and variables, scaling, guesses incl. time expressions, solver option sets, constraint sets with offsets and grid options) at <=2 deviations, plus multi-stage programs (direct and cloned; a sub-stage parameter updated after the solve) and SplineMethod programs (alone and as a sub-stage) x save position (before any transcription, after a query, after a solve, after post-transcription set_value/set_initial, after a solve followed by an invalidating edit, save-load twice): what the solver receives from the loaded OCP (rows, objective, start, parameters, solver settings) = from the original after saving = from a fresh OCP; accessor lists and shapes equal and in the same order; updates through the loaded OCP's accessor symbols have the same effect" % len(DIMS),
+        rule="program alphabet over %d feature dimensions (methods, integrators, grids incl. localized/free/density, horizon kinds, state shapes, DAE, global/per-interval parameters and variables, scaling, guesses incl. time expressions, solver option sets, constraint sets with offsets and grid options) at <=2 deviations, plus multi-stage programs (direct and cloned; a sub-stage parameter updated after the solve) and SplineMethod programs (alone and as a sub-stage) x save position (before any transcription, after a query, after a solve, after post-transcription set_value/set_initial, after a solve followed by an invalidating edit, save-load twice): what the solver receives from the loaded OCP (rows, objective, start, parameters, solver settings) = from the original after saving = from a fresh OCP; accessor lists and shapes equal and in the same order; updates through the loaded OCP's accessor symbols (after its first solve, and on a second loaded copy before any transcription) have the same effect" % len(DIMS),
         bound="k<=2 deviations x %s positions" % ("6" if tier == "thorough" else "2-6"),
         assumptions=["solver spy is 'what the solver receives'", "files are written to a per-case temp dir that is removed"])
